@@ -1266,6 +1266,11 @@ func stateAnyCommentStart(s *Scanner, c byte) state {
 		// any symbol inline user comment
 		s.annotation = annotationNone
 		s.step = stateInlineComment
+		if bytes.IsNewLine(c) {
+			// Empty comment: the line ends right here, the next line isn't a
+			// part of the comment.
+			return stateInlineComment(s, c)
+		}
 		return scanContinue
 	} else if s.index < s.dataSize && s.data[s.index] == '#' { // third #
 		s.annotation = annotationNone
